@@ -67,6 +67,7 @@ def check(ctx, report):
     else:
         report.touch(h)
         hassh_tabulation(report, h, hs, ctx.thorough)
+        hex_rendering(ctx, report)
     # ---- R2
     pk = model.cls('SshPublicKeyBase')
     fp = pk.methods.get('fingerprints')
@@ -238,3 +239,47 @@ def fingerprint_tabulation(ctx, report, pk, fp, fr, hk, spec):
     src = ast.unparse(hk.node)
     if 'base64.b64encode(self.key_bytes)' not in src.replace('standard_b64encode', 'b64encode'):
         report.add('C16.R2', hk.construct + '@known_hosts', 'known_hosts is not base64(key_bytes)')
+
+
+def hex_rendering(ctx, report, rule='C16.R1'):
+    """bytes_to_hex_string evaluated (sa.miniexec) on byte strings with leading zero bytes and nibbles, with and without
+    separator, in both letter cases: two digits per byte, nothing dropped"""
+    import binascii
+    from ..miniexec import Evaluator, Raised, Unsupported
+    mod = ctx.model.modules.get('cryptoparser.common.utils')
+    f = None
+    if mod is not None:
+        for fn in ctx.model.functions():
+            if fn.module is mod and fn.name == 'bytes_to_hex_string' and fn.cls is None:
+                f = fn
+    if f is None:
+        report.error('%s: cryptoparser.common.utils.bytes_to_hex_string vanished' % rule)
+        return
+    report.touch(f)
+
+    def hook(n, ev):
+        d = ast.unparse(n.func)
+        if d == 'six.iterbytes':
+            return list(bytes(ev.ev(n.args[0])))
+        if d == 'binascii.hexlify':
+            return binascii.hexlify(ev.ev(n.args[0]))
+        if d in ('six.ensure_text', 'six.ensure_str'):
+            v = ev.ev(n.args[0])
+            return v.decode('ascii') if isinstance(v, (bytes, bytearray)) else v
+        return NotImplemented
+    params = [a.arg for a in f.node.args.args]
+    try:
+        for data in (b'\x07\xba\x32', b'\x00\x01\xff', b'\x00\x00', b'\xab', b'', bytes(range(16))):
+            for sep in ('', ':'):
+                for lower in (True, False):
+                    report.count(rule)
+                    got = Evaluator(dict(zip(params, [data, sep, lower])), hook, None).function(f.node)
+                    digits = binascii.hexlify(data).decode('ascii')
+                    digits = digits if lower else digits.upper()
+                    want = sep.join(digits[i:i + 2] for i in range(0, len(digits), 2))
+                    if got != want:
+                        report.add(rule, f.construct + '@digits[%s]' % ('separator' if sep else 'plain'),
+                                   'bytes %s are rendered as %r (separator %r, lowercase %s), expected %r' % (data.hex(), got, sep, lower, want))
+                        return
+    except (Unsupported, Raised) as e:
+        report.add(rule, f.construct + '@tabulation', 'bytes_to_hex_string left the subset the tabulation understands: %s' % e)
